@@ -1,10 +1,12 @@
 import Driver.C20
 import Driver.LibMem
 import Driver.C17
+import Driver.C18
 
 def main (args : List String) : IO UInt32 :=
   match args with
   | ["c20"] => Driver.C20.main
   | ["libmem"] => Driver.LibMem.main
   | ["c17"] => Driver.C17.main
+  | ["c18"] => Driver.C18.main
   | _ => do IO.eprintln "usage: nridrv <property>"; return 2
